@@ -443,6 +443,34 @@ func engineCaseInvCLI(ctx *Ctx) {
 			ctx.R.Path("cli-pairs-with-non-ascii-blanks", 1)
 			comparePair(q, q2, "wide-blanks", []int{3, 5, 20}[r2.Intn(3)])
 		}
+		// requests only the last-resort search answers (a fragment of a word beside a word nobody knows), opened by one of the little
+		// words people open a request with - how, the, please, show ... - whose case is what differs. A stream of its own.
+		r3 := vlib.NewRand(ctx.Seed, ctx.G(d), "caseinv-cli-opening-words")
+		for qi := 0; qi < 3 && len(words) > 0; qi++ {
+			w := words[r3.Intn(len(words))]
+			if len(w) < 5 || strings.IndexFunc(w, func(c rune) bool { return c < 'a' || c > 'z' }) >= 0 {
+				continue
+			}
+			frag := [](string){w[1:], w[:len(w)-1], w[1 : len(w)-1]}[r3.Intn(3)]
+			open := []string{"how", "how to", "the", "a", "an", "please", "show", "show me", "what", "what is", "find", "list", "i want to", "to", "for", "with", "can i", "where is"}[r3.Intn(18)]
+			q := open + " " + frag + " " + []string{"zzqxj", "qqzzx", "xqzv"}[r3.Intn(3)]
+			if qi == 2 {
+				q = open + " " + frag
+			}
+			var q2 string
+			switch r3.Intn(4) {
+			case 0:
+				q2 = strings.ToUpper(q[:1]) + q[1:]
+			case 1:
+				q2 = strings.ToUpper(open) + q[len(open):]
+			case 2:
+				q2 = strings.ToUpper(q)
+			default:
+				q2 = strings.Title(open) + q[len(open):]
+			}
+			ctx.R.Path("cli-pairs-opened-by-a-little-word", 1)
+			comparePair(q, q2, "opening-word", []int{3, 5, 20}[r3.Intn(3)])
+		}
 		_ = comparePair
 		// the other command that takes a query: `wtf pipeline <query>` (what it prints below the line that repeats the query)
 		for qi := 0; qi < ctx.Pick(6, 8); qi++ {
